@@ -53,8 +53,35 @@ def partitions(rng, b, tier):
 
 
 def generate(rng, tier):
+    old = sgen.LONG
+    sgen.LONG = False     # every-cut partitions of multi-KiB values would dominate the run
+    try:
+        return _generate(rng, tier)
+    finally:
+        sgen.LONG = old
+
+
+def _generate(rng, tier):
     n = 6 if tier == "quick" else 40
     cases = []
+    # long streams (well over 8 KiB, the size at which a consumer might compact its buffer) delivered record by record,
+    # in fixed blocks of 1000 / 3000 / 4096 / 5000 / 8192 bytes, and whole: same entries, same errors
+    for g in range(2 if tier == "quick" else 6):
+        k = 70 + 10 * g
+        bad = None if g % 2 == 0 else rng.randrange(k // 2, k)
+        ents = stream_of(rng, k, bad)
+        b = "".join(t + "\n" for t in ents).encode("utf-8")
+        recs = [(t + "\n").encode("utf-8") for t in ents]
+        parts = [("whole", [b]), ("per-record", recs)]
+        for sz in (1000, 3000, 4096, 5000, 8192):
+            parts.append(("fixed-%d" % sz, [b[i:i + sz] for i in range(0, len(b), sz)]))
+        for kind, chunks in parts:
+            offs, p = [], 0
+            for c in chunks[:-1]:
+                p += len(c)
+                offs.append(p)
+            cases.append(Case("stream", [enc(c) for c in chunks],
+                              meta={"group": "long%d" % g, "kind": kind, "bad": bad, "k": k, "stream": b, "ents": ents, "nt": len(chunks) > 1, "offs": offs}))
     for g in range(n):
         k = rng.choice([1, 2, 2, 3, 4])
         bad = None if g % 2 == 0 else rng.randrange(k)
